@@ -171,7 +171,7 @@ def x_prog(ctx, case):
 SUBCHECKS = {"prog": x_prog}
 
 FEATURES = ("own_exc", "expect", "force", "decor", "noupcall", "nested_cleanup", "truthy_return",
-            "mismatch_details", "handlers", "clone", "xfail_decor", "eq_exc", "setup_returns")
+            "mismatch_details", "handlers", "clone", "xfail_decor", "eq_exc", "setup_returns", "details")
 
 
 def run(ctx):
@@ -218,6 +218,23 @@ def run(ctx):
                         prog = {"su_pre": [], "su": [], "test": [], "td": [], "td_pre": [], "scratch": {}, own: True}
                         prog[stage].append(["raise", kind, "<<K1>>"])
                         ctx.execute("prog", {"prog": prog, "flavour": flavour})
+    # a UTF-8 text detail whose chunks split a multi-byte character, attached by a test that then fails, errors,
+    # skips or is interrupted: results that render details as text (2.6 / 2.7 / Twisted style, TestResult,
+    # result=None) still get their one outcome
+    split = ["detail", "log", "<<P9>>", ["636166c3", "a920e2", "98833c3c50393e3e"], "text"]
+    for flavour in FLAVOURS:
+        for kind in ("fail", "error", "skip", "xfail", "uxs", "kbd", None):
+            for where in ("su", "test", "c1"):
+                if not ctx.mine():
+                    continue
+                n += 1
+                prog = {"su_pre": [], "su": [], "test": [], "td": [], "td_pre": [], "scratch": {}}
+                body = [split] + ([["raise", kind, "<<K1>>"]] if kind else [])
+                if where == "c1":
+                    prog["su_pre"].append(["cleanup", "c1", body])
+                else:
+                    prog[where] += body
+                ctx.execute("prog", {"prog": prog, "flavour": flavour})
     ctx.note_space("nested MultipleExceptions holding an interrupt (3 shapes x 2 x 4 stages) and single raises on "
                    "TestCases with own failureException / skipException (2 x 6 x 3), every result flavour", n)
     ctx.notes["random_cases"] = True
